@@ -47,14 +47,15 @@ MIN_REACH = {
     "partial_reaps_of_a_harvester_crop_without_sync": {"quick": 8, "thorough": 100},
     "crops_without_a_saved_function_reaped_through_bare_handles": {"quick": 6, "thorough": 60},
     "partial_reaps_with_warnings_turned_into_errors": {"quick": 50, "thorough": 800},
+    "crops_whose_function_returns_a_plain_dict_of_outputs": {"quick": 2, "thorough": 20},
 }
 TIME_BUDGET = {"quick": 400, "thorough": 3400}
 CASE_TIMEOUT = {"quick": 300, "thorough": 900}
 
 FORMS = ["raw", "runner_ds", "raw", "to_ds", "harvester_ds", "raw", "to_df"]
 KINDS = {"raw": ["float", "array:3", "bool", "str", "tuple:2", "list:2x2", "int", "dataset:2", "mixed", "iarray:3", "barray:2", "iarray:2x2"],
-         "runner_ds": ["float", "array:3", "bool", "str", "dataset:2", "int", "multi:s,t"],
-         "to_ds": ["float", "array:3", "dataset:2", "multi:s,a3", "multi:s,t"],
+         "runner_ds": ["float", "array:3", "bool", "str", "dataset:2", "int", "multi:s,t", "dict:2"],
+         "to_ds": ["float", "array:3", "dataset:2", "multi:s,a3", "multi:s,t", "dict:2"],
          "harvester_ds": ["float", "array:3", "int"],
          "to_df": ["float", "str", "multi:s,s", "int"]}
 
@@ -108,7 +109,7 @@ def cases(ctx):
 
 def _descr(kind):
     """Runner description (var_names, var_dims, var_coords) for a probe kind."""
-    if kind.startswith("dataset"):
+    if kind.startswith(("dataset", "dict")):      # (dict: the outputs as a plain dict of name -> value / (dims, values))
         return None, None, None
     if kind == "array:3":
         return "y", {"y": "t"}, {"t": [0.1, 0.2, 0.3]}
@@ -122,6 +123,8 @@ def _descr(kind):
 def _outputs(kind, v):
     if kind.startswith("dataset"):
         return {"x": float(v["x"]), "y": v["y"].values}
+    if kind.startswith("dict"):
+        return {"x": float(v["x"]), "y": np.asarray(v["y"][1])}
     if kind.startswith("multi"):
         return {"y": v[0], "z": v[1]}
     return {"y": v}
@@ -151,6 +154,8 @@ def run_case(ctx, case):
     sig = {"api": "reap(allow_incomplete)", "form": form, "kind": kind.split(":")[0], "shuffle": bool(case["shuffle"]),
            "batching": "size" if case.get("batchsize") else "count"}
     fn = probe.Probe(kind, name="probe")
+    if kind.startswith("dict"):
+        ctx.count("crops_whose_function_returns_a_plain_dict_of_outputs")
     ctor = {}
     if case.get("batchsize"):
         ctor["batchsize"] = case["batchsize"]
